@@ -213,6 +213,8 @@ Mutants of these classes (repo tests still 234 passed), all exit 1, none seen by
   _gpgre = ^\\s*-----(BEGIN|END) ..      files-paragraph-lost-behind-quoted-pgp-armor-line/{str,bytes}-source[/parsed-with-strict=False],
                                        document-rejected-behind-.., files-paragraphs-differ-behind-..
   an indented '-----END PGP' line is taken for the end of the armor               the same keys
+  marker also recognised behind 'Field: ' (search, (?:^|:[ \\t]*)-----..)            the same keys (the 12% quoted on the field line)
+(the module as it was before these classes held on all six: exit 0)
 
 Mutants of this class tried on a scratch copy (repo tests still 234 passed):
   find caches list(all_files_paragraphs()) at first use          caught (find-misses-matching-paragraph, find-first-match-wins)
@@ -508,8 +510,8 @@ SIZES = {
     'lead': (700, 22000),          # built paragraphs whose patterns START with '.' or '/': x ~14 names x ~3 paragraphs x 2..3 stages
     'cmt': (1600, 60000),          # BYTES documents with '#' comment lines + the same document as str: x ~6 names x ~3 paragraphs x 2
     'incr': (700, 24000),         # documents built incrementally with SHARED license short names: x ~6 adds x (listing + ~6 names + 2 re-parses)
-    'enc': (700, 28000),          # BYTES documents with ONE line that is not valid UTF-8 + the same document with that line valid: x ~6 names x ~3 paragraphs x 2
-    'pgp': (800, 30000),          # documents quoting PGP armor lines on continuation lines: x ~5 names x ~3 paragraphs
+    'enc': (700, 21000),          # BYTES documents with ONE line that is not valid UTF-8 + the same document with that line valid: x ~6 names x ~3 paragraphs x 2
+    'pgp': (800, 24000),          # documents quoting PGP armor lines on continuation lines: x ~5 names x ~3 paragraphs
 }
 
 LIT = ['a', 'a', 'a', 'b', 'b', 'c', 'A', '/', '/', '.']
@@ -5018,6 +5020,354 @@ for _t, _d in _R8_FLOORS.items():
         FLOORS[_t]['monitors'].update(_d['Q-LOWERED']['M'])
         FLOORS[_t]['counters'].update(_d['Q-LOWERED']['C'])
         FLOORS[_t]['nontrivial'] = _d['Q-LOWERED']['nontrivial']
+
+# >>> round-9 floors (generated from the measured evidence)
+# Round-9 classes: BYTES documents with ONE line that is not valid UTF-8 ('enc:*', 'enc-find:*', 'enc-ctl-find:*', M.enc.* - the
+# control M.enc.ctl.* and the document with the bad line M.enc.*) and documents quoting PGP armor lines on continuation lines
+# ('pgp:*', 'pgp-find:*', M.pgp.*).  ~50% of the measured values (quick: minimum over seeds 0-3; thorough: seed 0); sub-classes
+# whose floor would be below 15 are covered by their family counter only.  A run that never parses a document with an
+# undecodable line at each position (same paragraph before / behind the Files field, earlier / later paragraph, header), never
+# resolves a non-ASCII name through a non-ASCII pattern behind such a line, never parses a quoted BEGIN-without-END / BEGIN..END /
+# lone END block in front of later Files paragraphs from str and from bytes, strict and non-strict, is INCONCLUSIVE, not held.
+# 'LOWERED': the quick sizes of para / hist / doc / build / long were trimmed by 5..7% to pay for the classes; the floors those
+# sizes feed were re-measured (same rule).
+_R9_FLOORS = {'quick': {'C': {'enc-ctl-find:none-matches': 700,
+                 'enc-ctl-find:one-paragraph-matches': 1100,
+                 'enc-ctl-find:several-paragraphs-match': 400,
+                 'enc-find:last-of-several-matching': 400,
+                 'enc-find:non-ascii-name-resolves-to-a-paragraph': 1300,
+                 'enc-find:non-ascii-name-resolves-to-paragraph-with-non-ascii-patterns': 1100,
+                 'enc-find:none-matches': 700,
+                 'enc-find:one-paragraph-matches': 1100,
+                 'enc-find:resolves-to-paragraph-before-the-undecodable-line': 240,
+                 'enc-find:resolves-to-paragraph-behind-the-undecodable-line': 450,
+                 'enc-find:resolves-to-the-paragraph-that-holds-the-undecodable-line': 400,
+                 'enc-find:several-paragraphs-match': 400,
+                 'enc:1-files-paragraphs': 60,
+                 'enc:2-files-paragraphs': 130,
+                 'enc:3-files-paragraphs': 150,
+                 'enc:bad-line-encoding-family:central-european': 23,
+                 'enc:bad-line-encoding-family:cjk-multi-byte': 23,
+                 'enc:bad-line-encoding-family:cyrillic': 29,
+                 'enc:bad-line-encoding-family:western-single-byte': 270,
+                 'enc:bad-line-encoding:cp1252': 83,
+                 'enc:bad-line-encoding:iso-8859-15': 35,
+                 'enc:bad-line-encoding:latin-1': 110,
+                 'enc:bad-line-encoding:mac-roman': 15,
+                 'enc:bad-line-field:Comment': 99,
+                 'enc:bad-line-field:Copyright': 130,
+                 'enc:bad-line-field:License': 84,
+                 'enc:bad-line:continuation-line': 160,
+                 'enc:bad-line:first-line-of-field': 180,
+                 'enc:documents': 370,
+                 'enc:matches-observed/control-document': 5000,
+                 'enc:matches-observed/document-with-undecodable-line': 5000,
+                 'enc:no-end-of-line-after-last-line': 40,
+                 'enc:non-ascii-names': 1900,
+                 'enc:non-ascii-patterns': 1000,
+                 'enc:other-field-lines-with-valid-non-ascii-text': 340,
+                 'enc:position:earlier-paragraph-than-non-ascii-files-field': 180,
+                 'enc:position:header': 62,
+                 'enc:position:later-paragraph-than-non-ascii-files-field': 140,
+                 'enc:position:line-directly-after-files-field': 33,
+                 'enc:position:line-directly-before-files-field': 61,
+                 'enc:position:same-paragraph-after-files-field': 96,
+                 'enc:position:same-paragraph-after-non-ascii-files-field': 88,
+                 'enc:position:same-paragraph-before-files-field': 150,
+                 'enc:position:same-paragraph-before-non-ascii-files-field': 140,
+                 'enc:position:stand-alone-license-paragraph': 36,
+                 'enc:source:bytes-buffered': 16,
+                 'enc:source:bytes-gen': 45,
+                 'enc:source:bytes-iter': 21,
+                 'enc:source:bytes-list': 69,
+                 'enc:source:bytes-list-noeol': 20,
+                 'enc:source:bytes-tuple': 21,
+                 'enc:source:bytesio': 65,
+                 'enc:source:disk-rb': 69,
+                 'enc:strict': 230,
+                 'enc:strict=False': 120,
+                 'pgp-find:last-of-several-matching-stands-behind-the-quote': 660,
+                 'pgp-find:none-matches': 510,
+                 'pgp-find:one-paragraph-matches': 800,
+                 'pgp-find:resolves-to-paragraph-before-the-quote-although-files-paragraphs-follow': 300,
+                 'pgp-find:resolves-to-paragraph-behind-the-quote': 1100,
+                 'pgp-find:several-paragraphs-match': 720,
+                 'pgp:2-files-paragraphs': 150,
+                 'pgp:3-files-paragraphs': 150,
+                 'pgp:4-files-paragraphs': 89,
+                 'pgp:bytes-source': 220,
+                 'pgp:bytes-source/strict': 130,
+                 'pgp:bytes-source/strict=False': 86,
+                 'pgp:documents': 410,
+                 'pgp:documents-with-files-paragraphs-behind-the-quote': 400,
+                 'pgp:files-paragraphs-behind-the-first-quote': 810,
+                 'pgp:host-field:Comment': 390,
+                 'pgp:host-field:Copyright': 97,
+                 'pgp:host-field:Disclaimer': 51,
+                 'pgp:host-field:License': 220,
+                 'pgp:host-paragraph:Files': 430,
+                 'pgp:host-paragraph:License': 120,
+                 'pgp:host-paragraph:header': 200,
+                 'pgp:marker-before-the-files-field-of-its-paragraph': 210,
+                 'pgp:marker-is-last-line-of-its-paragraph': 120,
+                 'pgp:marker-led-in-by:blank': 340,
+                 'pgp:marker-led-in-by:blanks': 300,
+                 'pgp:marker-led-in-by:field-line': 33,
+                 'pgp:marker-led-in-by:tab': 100,
+                 'pgp:marker:BEGIN': 520,
+                 'pgp:marker:BEGIN PUBLIC KEY BLOCK': 58,
+                 'pgp:marker:BEGIN SIGNATURE': 250,
+                 'pgp:marker:BEGIN SIGNED MESSAGE': 200,
+                 'pgp:marker:END': 270,
+                 'pgp:marker:END MESSAGE': 19,
+                 'pgp:marker:END PUBLIC KEY BLOCK': 53,
+                 'pgp:marker:END SIGNATURE': 190,
+                 'pgp:matches-observed/bytes-source': 3100,
+                 'pgp:matches-observed/str-source': 2500,
+                 'pgp:no-end-of-line-after-last-line': 46,
+                 'pgp:quote:begin-and-end': 160,
+                 'pgp:quote:begin-without-end': 270,
+                 'pgp:quote:lone-end': 100,
+                 'pgp:quote:signed-message-and-signature': 74,
+                 'pgp:source:bytes-buffered': 19,
+                 'pgp:source:bytes-gen': 15,
+                 'pgp:source:bytes-iter': 20,
+                 'pgp:source:bytes-list': 30,
+                 'pgp:source:bytes-list-noeol': 15,
+                 'pgp:source:bytes-tuple': 17,
+                 'pgp:source:bytesio': 36,
+                 'pgp:source:disk-rb': 16,
+                 'pgp:source:disk-rb-raw': 16,
+                 'pgp:source:disk-text': 19,
+                 'pgp:source:str-gen': 16,
+                 'pgp:source:str-iter': 20,
+                 'pgp:source:str-list': 37,
+                 'pgp:source:str-list-noeol': 18,
+                 'pgp:source:str-tuple': 15,
+                 'pgp:source:stringio': 40,
+                 'pgp:str-source': 170,
+                 'pgp:str-source/strict': 100,
+                 'pgp:str-source/strict=False': 74,
+                 'pgp:strict': 240,
+                 'pgp:strict=False': 160},
+           'LOWERED': {'C': {'build:find-on-document-without-files-paragraph': 6900,
+                             'build:find-resolves-into-run-of-2+-adds': 6900,
+                             'build:find-resolves-to-overlapping-paragraph-added-behind-sole-first-files-and-licenses': 2600,
+                             'build:histories': 2100,
+                             'find:several-paragraphs-match': 6100,
+                             'long-find:last-of-several-matching-is-a-long-list': 720,
+                             'long-find:resolves-to-paragraph-with-list-beyond-one-text-line': 2800,
+                             'long-find:several-paragraphs-match': 1700,
+                             'long:documents': 420,
+                             'long:handed-over-as:list': 730,
+                             'long:handed-over-as:tuple': 180,
+                             'long:joined-length:200-399': 320,
+                             'long:joined-length:400+': 200,
+                             'long:joined-length:72-88': 70,
+                             'long:joined-length:89-199': 180,
+                             'long:lists-beyond-one-text-line': 730,
+                             'long:matches-observed/re-assigned': 10000,
+                             'long:name:hyphen-fragment': 4000,
+                             'long:name:whole-single-long-pattern': 210,
+                             'long:name:width-fragment': 390,
+                             'long:oracle-cross-checked-with-distance-dp': 4400,
+                             'long:paragraph-via:assign': 190,
+                             'long:paragraph-via:assign-in-doc': 200,
+                             'long:paragraph-via:create': 530,
+                             'long:patterns-with-hyphen': 4300,
+                             'long:patterns-with-wildcard': 1500,
+                             'long:re-assigned-lists': 180,
+                             'long:reparse-strict': 290,
+                             'long:reparse-strict=False': 120,
+                             'long:stale-distinguishing-name': 410,
+                             'nontrivial:near-miss': 220000,
+                             'op:build-add-files': 8200,
+                             'op:build-add-license': 1600,
+                             'op:find-build-reparsed': 52000,
+                             'op:match-after-2+-unobserved-assignments': 1800,
+                             'ws-build:documents': 250,
+                             'ws-build:documents-parsed-with-strict=False': 83,
+                             'ws-build:find-on-history-from-start-with-whitespace-only-separators': 6100},
+                       'M': {'M.build.find': 55000,
+                             'M.build.order': 8800,
+                             'M.build.reparse': 8500,
+                             'M.find': 32000,
+                             'M.long.reparse': 420,
+                             'M.long.reparse.find': 9600,
+                             'M.match': 540000,
+                             'M.stale': 13000,
+                             'M.ws-build.order': 250}},
+           'M': {'M.enc.ctl.files': 810,
+                 'M.enc.ctl.find': 2200,
+                 'M.enc.ctl.order': 370,
+                 'M.enc.files': 810,
+                 'M.enc.find': 2200,
+                 'M.enc.order': 370,
+                 'M.enc.same': 2200,
+                 'M.pgp.files': 1100,
+                 'M.pgp.find': 2100,
+                 'M.pgp.order': 410}},
+ 'thorough': {'C': {'enc-ctl-find:none-matches': 20000,
+                    'enc-ctl-find:one-paragraph-matches': 29000,
+                    'enc-ctl-find:several-paragraphs-match': 12000,
+                    'enc-find:last-of-several-matching': 12000,
+                    'enc-find:non-ascii-name-resolves-to-a-paragraph': 38000,
+                    'enc-find:non-ascii-name-resolves-to-paragraph-with-non-ascii-patterns': 32000,
+                    'enc-find:none-matches': 20000,
+                    'enc-find:one-paragraph-matches': 29000,
+                    'enc-find:resolves-to-paragraph-before-the-undecodable-line': 7700,
+                    'enc-find:resolves-to-paragraph-behind-the-undecodable-line': 14000,
+                    'enc-find:resolves-to-the-paragraph-that-holds-the-undecodable-line': 9900,
+                    'enc-find:several-paragraphs-match': 12000,
+                    'enc:1-files-paragraphs': 1700,
+                    'enc:2-files-paragraphs': 1700,
+                    'enc:3-files-paragraphs': 3400,
+                    'enc:4-files-paragraphs': 1700,
+                    'enc:5-files-paragraphs': 1700,
+                    'enc:bad-line-encoding-family:central-european': 880,
+                    'enc:bad-line-encoding-family:cjk-multi-byte': 930,
+                    'enc:bad-line-encoding-family:cyrillic': 870,
+                    'enc:bad-line-encoding-family:western-single-byte': 7800,
+                    'enc:bad-line-encoding:cp1250': 420,
+                    'enc:bad-line-encoding:cp1251': 300,
+                    'enc:bad-line-encoding:cp1252': 2400,
+                    'enc:bad-line-encoding:cp437': 260,
+                    'enc:bad-line-encoding:cp850': 330,
+                    'enc:bad-line-encoding:euc-jp': 450,
+                    'enc:bad-line-encoding:iso-8859-15': 1100,
+                    'enc:bad-line-encoding:iso-8859-2': 450,
+                    'enc:bad-line-encoding:iso-8859-5': 290,
+                    'enc:bad-line-encoding:koi8-r': 280,
+                    'enc:bad-line-encoding:latin-1': 3200,
+                    'enc:bad-line-encoding:mac-roman': 480,
+                    'enc:bad-line-encoding:shift_jis': 470,
+                    'enc:bad-line-field:Comment': 2800,
+                    'enc:bad-line-field:Copyright': 4200,
+                    'enc:bad-line-field:Disclaimer': 250,
+                    'enc:bad-line-field:License': 2500,
+                    'enc:bad-line-field:Source': 270,
+                    'enc:bad-line-field:Upstream-Contact': 280,
+                    'enc:bad-line:continuation-line': 5000,
+                    'enc:bad-line:first-line-of-field': 5400,
+                    'enc:documents': 10000,
+                    'enc:matches-observed/control-document': 180000,
+                    'enc:matches-observed/document-with-undecodable-line': 180000,
+                    'enc:no-end-of-line-after-last-line': 1200,
+                    'enc:non-ascii-names': 54000,
+                    'enc:non-ascii-patterns': 41000,
+                    'enc:other-field-lines-with-valid-non-ascii-text': 10000,
+                    'enc:position:earlier-paragraph-than-non-ascii-files-field': 6500,
+                    'enc:position:header': 1800,
+                    'enc:position:later-paragraph-than-non-ascii-files-field': 5100,
+                    'enc:position:line-directly-after-files-field': 1100,
+                    'enc:position:line-directly-before-files-field': 1900,
+                    'enc:position:same-paragraph-after-files-field': 3100,
+                    'enc:position:same-paragraph-after-non-ascii-files-field': 2900,
+                    'enc:position:same-paragraph-before-files-field': 4400,
+                    'enc:position:same-paragraph-before-non-ascii-files-field': 4100,
+                    'enc:position:stand-alone-license-paragraph': 1100,
+                    'enc:source:bytes-buffered': 660,
+                    'enc:source:bytes-gen': 1300,
+                    'enc:source:bytes-iter': 650,
+                    'enc:source:bytes-list': 1900,
+                    'enc:source:bytes-list-noeol': 680,
+                    'enc:source:bytes-tuple': 650,
+                    'enc:source:bytesio': 1900,
+                    'enc:source:disk-rb': 1900,
+                    'enc:source:disk-rb-raw': 640,
+                    'enc:strict': 6800,
+                    'enc:strict=False': 3700,
+                    'pgp-find:last-of-several-matching-stands-behind-the-quote': 22000,
+                    'pgp-find:none-matches': 13000,
+                    'pgp-find:one-paragraph-matches': 21000,
+                    'pgp-find:resolves-to-paragraph-before-the-quote-although-files-paragraphs-follow': 9900,
+                    'pgp-find:resolves-to-paragraph-behind-the-quote': 36000,
+                    'pgp-find:several-paragraphs-match': 25000,
+                    'pgp:2-files-paragraphs': 2000,
+                    'pgp:3-files-paragraphs': 4000,
+                    'pgp:4-files-paragraphs': 2000,
+                    'pgp:5-files-paragraphs': 1900,
+                    'pgp:6-files-paragraphs': 1900,
+                    'pgp:bytes-source': 6600,
+                    'pgp:bytes-source/strict': 3900,
+                    'pgp:bytes-source/strict=False': 2700,
+                    'pgp:documents': 12000,
+                    'pgp:documents-with-files-paragraphs-behind-the-quote': 11000,
+                    'pgp:files-paragraphs-behind-the-first-quote': 31000,
+                    'pgp:host-field:Comment': 10000,
+                    'pgp:host-field:Copyright': 2800,
+                    'pgp:host-field:Disclaimer': 1700,
+                    'pgp:host-field:License': 6300,
+                    'pgp:host-paragraph:Files': 11000,
+                    'pgp:host-paragraph:License': 3700,
+                    'pgp:host-paragraph:header': 5200,
+                    'pgp:marker-before-the-files-field-of-its-paragraph': 5700,
+                    'pgp:marker-is-last-line-of-its-paragraph': 2900,
+                    'pgp:marker-led-in-by:blank': 8700,
+                    'pgp:marker-led-in-by:blanks': 8600,
+                    'pgp:marker-led-in-by:field-line': 590,
+                    'pgp:marker-led-in-by:tab': 2900,
+                    'pgp:marker:BEGIN': 13000,
+                    'pgp:marker:BEGIN PUBLIC KEY BLOCK': 1800,
+                    'pgp:marker:BEGIN SIGNATURE': 6600,
+                    'pgp:marker:BEGIN SIGNED MESSAGE': 4800,
+                    'pgp:marker:END': 7600,
+                    'pgp:marker:END MESSAGE': 680,
+                    'pgp:marker:END PUBLIC KEY BLOCK': 1600,
+                    'pgp:marker:END SIGNATURE': 5300,
+                    'pgp:matches-observed/bytes-source': 120000,
+                    'pgp:matches-observed/str-source': 100000,
+                    'pgp:no-end-of-line-after-last-line': 1400,
+                    'pgp:quote:begin-and-end': 4700,
+                    'pgp:quote:begin-without-end': 6600,
+                    'pgp:quote:lone-end': 2800,
+                    'pgp:quote:signed-message-and-signature': 1900,
+                    'pgp:source:bytes-buffered': 580,
+                    'pgp:source:bytes-gen': 610,
+                    'pgp:source:bytes-iter': 600,
+                    'pgp:source:bytes-list': 1200,
+                    'pgp:source:bytes-list-noeol': 610,
+                    'pgp:source:bytes-tuple': 640,
+                    'pgp:source:bytesio': 1200,
+                    'pgp:source:disk-rb': 600,
+                    'pgp:source:disk-rb-raw': 610,
+                    'pgp:source:disk-text': 600,
+                    'pgp:source:str-gen': 570,
+                    'pgp:source:str-iter': 580,
+                    'pgp:source:str-list': 1200,
+                    'pgp:source:str-list-noeol': 590,
+                    'pgp:source:str-tuple': 580,
+                    'pgp:source:stringio': 1100,
+                    'pgp:str-source': 5300,
+                    'pgp:str-source/strict': 3100,
+                    'pgp:str-source/strict=False': 2100,
+                    'pgp:strict': 7100,
+                    'pgp:strict=False': 4800},
+              'LOWERED': {'C': {'lead-find:last-of-several-matching-through-pattern-starting-with-dot-or-slash': 15000,
+                                'lead-find:resolves-through-pattern-starting-with-dot-or-slash': 51000,
+                                'lead-find:several-paragraphs-match': 47000,
+                                'lead:pattern-starts-with:..': 2100,
+                                'lead:pattern-starts-with:...': 3400},
+                          'M': {}},
+              'M': {'M.enc.ctl.files': 31000,
+                    'M.enc.ctl.find': 63000,
+                    'M.enc.ctl.order': 10000,
+                    'M.enc.files': 31000,
+                    'M.enc.find': 63000,
+                    'M.enc.order': 10000,
+                    'M.enc.same': 63000,
+                    'M.pgp.files': 45000,
+                    'M.pgp.find': 60000,
+                    'M.pgp.order': 12000}}}
+for _t, _d in _R9_FLOORS.items():
+    FLOORS[_t]['monitors'].update(_d['M'])
+    FLOORS[_t]['counters'].update(_d['C'])
+    if 'LOWERED' in _d:
+        FLOORS[_t]['monitors'].update(_d['LOWERED']['M'])
+        FLOORS[_t]['counters'].update(_d['LOWERED']['C'])
+        if 'nontrivial' in _d['LOWERED']:
+            FLOORS[_t]['nontrivial'] = _d['LOWERED']['nontrivial']
+# <<< round-9 floors
 
 LEVEL_TEXT = ('Runtime monitoring: seeded hostile pattern lists and near-miss names (literal expansions of the patterns with '
               '0..2 single-character edits), bounded-exhaustive sweeps of small pattern/name spaces, parsed and built '
